@@ -25,9 +25,13 @@ impl<'a> EnumPruner<'a> {
             Err(_) => return None,
         };
 
-        let Some(variant_id) = index.variants.iter().position(|v| v == val_str) else {
-            return None;
-        };
+        // A value that is not a variant of this enum matches no row under `=` and every row
+        // under `!=`; an out-of-range variant id makes prune() return exactly those zones
+        let variant_id = index
+            .variants
+            .iter()
+            .position(|v| v == val_str)
+            .unwrap_or(index.variants.len());
 
         let pruner = EnumZonePruner {
             segment_id,
